@@ -177,6 +177,14 @@ func (*c09) Corpus() []any {
 		// K1 (C01) seen through C09: install --replace when the last revision is failed and an older one is deployed
 		out = append(out, conc.Case{Backend: b, Pre: c9preOf(-1), Note: "K1 install --replace over a failed last revision",
 			Ops: []eng.Op{c9op("install", 10, eng.Flags{Replace: true}, "a"), c9op("upgrade", 11, eng.Flags{}, "a")}, Sched: []int{0, 0, 0, 0, 0, 0, 0}})
+		// install --atomic fails on a rejected request, uninstalls and purges its record; the other install then creates revision 1 again
+		out = append(out, conc.Case{Backend: b, Note: "atomic install purges its record, revision 1 is created again",
+			Ops:   []eng.Op{c9fault(c9op("install", 10, eng.Flags{Atomic: true}, "a"), "create", "ConfigMap/a"), c9op("install", 11, eng.Flags{}, "b")},
+			Sched: []int{0, 0, 0, 0, 0, 0, 0, 0, 0, 0}})
+		// the pruning window (outside the quantifier): max-history 2, the stale upgrade prunes the other's PENDING revision 3 and re-creates it
+		out = append(out, conc.Case{Backend: b, Pre: c9preOf(-1), Note: "pruning window: a stale upgrade --max-history 2 prunes the other's pending revision",
+			Ops:   []eng.Op{c9op("upgrade", 10, eng.Flags{MaxHistory: 2}, "a"), c9op("upgrade", 11, eng.Flags{}, "a")},
+			Sched: []int{1, 1, 0, 0, 1, 0, 0, 0, 1, 1, 0, 1, 0, 0, 0}})
 		// K-C09-2: the automatic rollback of a failed --atomic upgrade races the other upgrade
 		out = append(out, base[7].mk(b, []int{0, 0, 0, 0, 0, 1, 0, 1, 1, 1, 0, 0, 1, 0, 0, 0, 0, 0}))
 	}
@@ -375,27 +383,31 @@ func (*c09) Oracle(ci, oi any) []hx.Violation {
 		add("C09:hang", o.Hang)
 		return vs
 	}
-	pruning, replace := false, false
+	replace := false
 	for _, op := range c.Ops {
-		if op.Flags.MaxHistory > 0 {
-			pruning = true
-		}
 		if op.Kind == "install" && op.Flags.Replace {
 			replace = true
 		}
 	}
 	startEmpty := len(c.Pre) == 0
-	// (1) every revision is created by exactly one operation
-	creator := map[int]int{}
+	// (1) every revision is created by exactly one operation: never two successful creates of a
+	// revision without a successful delete of it in between (install --atomic purges its own
+	// record when it fails; pruning deletes)
+	live := map[int]int{}
+	for _, ev := range o.StoreLog {
+		switch ev.What {
+		case "create":
+			if j, dup := live[ev.Rev]; dup {
+				add("C09:revision-created-twice", fmt.Sprintf("revision %d was created by operation %d and again by operation %d with no delete in between", ev.Rev, j, ev.Op))
+			}
+			live[ev.Rev] = ev.Op
+		case "delete":
+			delete(live, ev.Rev)
+		}
+	}
 	for i, oo := range o.Ops {
 		if oo.Panic != "" {
 			add("C09:panic", fmt.Sprintf("operation %d panicked: %s", i, oo.Panic))
-		}
-		for _, v := range oo.Created {
-			if j, dup := creator[v]; dup && !pruning {
-				add("C09:revision-created-twice", fmt.Sprintf("revision %d was created by operation %d and by operation %d", v, j, i))
-			}
-			creator[v] = i
 		}
 	}
 	// (2) an operation that created no revision is inert and fails with the right class
@@ -452,7 +464,7 @@ func (*c09) Oracle(ci, oi any) []hx.Violation {
 		case replace && failedLast:
 			sig = "C09:two-deployed-install-replace-over-failed-last" // = K1 of C01, sequential
 		case replace && startEmpty:
-			sig = "C09:two-deployed-install-replace-races-install" // K-C09-1
+			sig = "C09:two-deployed-install-replace-races-install" // K-C09-1, repaired in /repo: must not fire any more
 		case atomicUp && c9hasFault(c):
 			sig = "C09:two-deployed-atomic-rollback-races-upgrade" // K-C09-2
 		}
